@@ -96,6 +96,8 @@ class P18(dagrun.Project):
         self.bld = os.path.join(root, 'bld')
         self.log = os.path.join(root, 'log-' + tag)
         self.env['VSTUB_LOG'] = self.log
+        # stub transpilers (create the -o file, record): lex and Qt's rcc
+        self.env.update({'LEX': 'vcc', 'RCC': 'vcc'})
         self.model = c18gen.ExtModel(case['spec'], ext)
         self.ext = ext
 
@@ -252,6 +254,8 @@ def norm_argv(rec, p):
 def by_step(p, recs):
     d, unknown = {}, []
     for r in recs:
+        if r['argv'][-1:] == ['--list'] and r['argv'][-2].endswith('.qrc'):
+            continue   # bfg9000-rccdep's dependency-listing pass of (the stub) rcc
         s, u = p.classify([r])
         if s:
             d.setdefault(s[0], []).append(r)
@@ -428,6 +432,9 @@ def rebuild(res, case, wb, root, a, orig, archives, top):
     lost = set()
     for f in ext.get('nodist_dag') or []:
         lost |= m.downstream('S:' + f)
+    for it in ext['items']:
+        if it['k'] == 'tsrc' and not it['dist']:
+            lost |= m.downstream('S:' + it['scope'] + it['src'])
     if lost:
         res.ev('restricted-rebuilds')
     cum_want, cum_got = set(), set()
@@ -472,9 +479,10 @@ def rebuild(res, case, wb, root, a, orig, archives, top):
             cum_got |= set(got)
             want, have = cum_want, cum_got
             ok = have == want if backend == 'make' else have <= want
-            if ok and name == 'c18all':
-                # the extension's own steps never depend on dag files
-                ext_steps = {s for s, st in m.steps.items() if st['node'] >= 1000}
+            ext_steps = {s for s, st in m.steps.items() if st['node'] >= 1000}
+            if ok and name == 'c18all' and not (lost & ext_steps):
+                # the extension's own steps do not depend on dag files (and Ninja only
+                # refuses c18all when one of its own sources is not distributed)
                 ok = ext_steps & cum_want <= have
         if not ok:
             missing, spurious = sorted(want - have), sorted(have - want)
